@@ -1,4 +1,127 @@
-// engine K harnesses for module hook 'chunks' (included under cfg(kani) by /repo)
+// engine K — helpers/stream/chunks.rs (property C17: fixed-width chunking with zero padding of the tail chunk)
+use std::future::{Ready, ready};
+
+use super::*;
+
+fn poll_ready<F: Future + Unpin>(f: &mut F) -> Option<F::Output> {
+    let waker = futures::task::noop_waker();
+    let mut cx = Context::from_waker(&waker);
+    match Pin::new(f).poll(&mut cx) {
+        Poll::Ready(v) => Some(v),
+        Poll::Pending => None,
+    }
+}
+
+/// `process_slice_by_chunks` (SliceChunkProcessor) over `slice` (symbolic contents, symbolic length <= MAX) with chunk width N:
+///   chunk i carries slice[N*i .. N*i+N]; the tail chunk carries the remaining len % N items followed by
+///   T::default() padding and is typed Partial(len % N), all others Full; exactly ceil(len/N) chunks, then
+///   None forever; the index passed to the processing function is i; no panic.
+macro_rules! slice_chunks {
+    ($name:ident, $n:expr, $max:expr, $unwind:expr) => {
+        #[kani::proof]
+        #[kani::unwind($unwind)]
+        fn $name() {
+            const N: usize = $n;
+            const MAX: usize = $max;
+            let data: [u8; MAX] = kani::any();
+            let len: usize = kani::any();
+            kani::assume(len <= MAX);
+            let slice = &data[..len];
+            let mut p = std::pin::pin!(process_slice_by_chunks::<u8, (usize, [u8; N]), _, Ready<Result<(usize, [u8; N]), Error>>, N>(
+                slice,
+                |idx, d: ChunkData<'_, u8, N>| {
+                    let mut a = [0u8; N];
+                    let mut k = 0;
+                    while k < N {
+                        a[k] = d[k];
+                        k += 1;
+                    }
+                    ready(Ok((idx, a)))
+                },
+            ));
+            let waker = futures::task::noop_waker();
+            let mut cx = Context::from_waker(&waker);
+            kani::cover!(len == MAX);
+            kani::cover!(len % N != 0);
+            kani::cover!(len == 0);
+            let mut i = 0usize;
+            loop {
+                let Poll::Ready(next) = p.as_mut().poll_next(&mut cx) else {
+                    assert!(false, "the chunk stream is always ready");
+                    return;
+                };
+                match next {
+                    None => break,
+                    Some(mut cf) => {
+                        assert!(N * i < len, "more chunks than ceil(len/N)");
+                        let full = N * i + N <= len;
+                        let Some(Ok(chunk)) = poll_ready(&mut cf) else {
+                            assert!(false, "chunk future of a ready processing function must be ready and Ok");
+                            return;
+                        };
+                        match chunk.chunk_type {
+                            ChunkType::Full => assert!(full),
+                            ChunkType::Partial(n) => assert!(!full && n == len - N * i && n > 0),
+                        }
+                        assert!(chunk.data.0 == i);
+                        let k: usize = kani::any();
+                        kani::assume(k < N);
+                        if N * i + k < len {
+                            assert!(chunk.data.1[k] == data[N * i + k]);
+                        } else {
+                            assert!(chunk.data.1[k] == 0, "tail padding must be T::default()");
+                        }
+                        i += 1;
+                    }
+                }
+            }
+            assert!(i == (len + N - 1) / N);
+            assert!(matches!(p.as_mut().poll_next(&mut cx), Poll::Ready(None)), "None forever after the end");
+        }
+    };
+}
+slice_chunks!(c17_slice_chunks_n2, 2, 5, 7);
+slice_chunks!(c17_slice_chunks_n3, 3, 7, 9);
+
+/// Chunk::unpack::<M> on a well-formed Chunk<Vec<T>, N> (N = 4, M = 2): sub-chunk valid lengths sum to the
+/// chunk's valid length, all but the last are Full, order is kept, surplus sub-chunks are dropped, no panic.
+#[kani::proof]
+#[kani::unwind(5)]
+fn c17_chunk_unpack() {
+    let partial: bool = kani::any();
+    let plen: usize = kani::any();
+    kani::assume(plen >= 1 && plen <= 3);
+    let nsub: usize = kani::any();
+    let valid = if partial { plen } else { 4 };
+    // well-formed: between ceil(valid/2) and 2 sub-chunks (exactly 2 when full)
+    kani::assume(nsub <= 2 && nsub >= (valid + 1) / 2 && (partial || nsub == 2));
+    let tags: [u8; 2] = kani::any();
+    let mut v = Vec::with_capacity(2);
+    if nsub >= 1 {
+        v.push(tags[0]);
+    }
+    if nsub >= 2 {
+        v.push(tags[1]);
+    }
+    let c: Chunk<Vec<u8>, 4> = Chunk { chunk_type: if partial { ChunkType::Partial(plen) } else { ChunkType::Full }, data: v };
+    kani::cover!(partial && plen == 1 && nsub == 2);
+    kani::cover!(partial && plen == 3);
+    kani::cover!(!partial);
+    let out = c.unpack::<2>();
+    assert!(out.len() == (valid + 1) / 2);
+    let mut total = 0usize;
+    for (i, sc) in out.iter().enumerate() {
+        assert!(sc.data == tags[i]);
+        match sc.chunk_type {
+            ChunkType::Full => total += 2,
+            ChunkType::Partial(n) => {
+                assert!(n == 1 && i + 1 == out.len());
+                total += n;
+            }
+        }
+    }
+    assert!(total == valid);
+}
 
 #[cfg(test)]
 include!(concat!(env!("IPA_VERIF_DIR"), "/.build/playback/chunks.rs"));
